@@ -9,8 +9,6 @@ NEEDS = ["dist_close_to_zero_abs_tol", "dist_manager_exponent"]
 
 
 def finding_of(case, obs, clause, gi):
-    if clause == "C02_group_excl" and gi in D.split_leftover_groups(case, obs):
-        return "C02-split-leftover"
     if clause == "F4_exponent0_full_battery_share":
         return "C02-exponent0-full-battery"
     return None
@@ -31,14 +29,14 @@ def streams():
 
 
 ASSUMPTIONS = [
-    "C02_inverter_partial / C02_group_partial carry the hypothesis side_ok (see C01); C02_inverter_multi (groups with >= 2 inverters), C02_no_headroom and C02_every_component_has_a_setpoint are unconditional on the run.",
-    "C02_no_headroom is stated for pow functions with pow(0) = 0 (every exponent > 0); exponent 0 gives a full battery a share by documented design (known finding C02-exponent0-full-battery).",
-    "C02_group at full strength is false (C02_group_refuted, known finding C02-split-leftover); C02_group_partial assumes the group's split left nothing over.",
-    "Requests with |p| <= 1e-9 W are outside the theorems; component ids pairwise distinct; admission condition as in C01.",
+    "All C02 theorems are unconditional on the run and need no admission condition (only well-formed data and a request the code does not treat as zero).",
+    "The edge of an exclusion zone is stated with the factor (1 - rel_tol), rel_tol = math.isclose's 1e-9: the minimum-power guard (fix 5d1dfb7) accepts a total that is isclose to the set's minimum power. Sets with >= 2 inverters satisfy the exact per-inverter statement (C02_inverter_multi_exact).",
+    "C02_no_headroom is stated for pow functions with pow(0) = 0 (every exponent > 0; C02_manager_exponent: the shipped exponent is 1); exponent 0 gives a full battery a share by documented design (known finding C02-exponent0-full-battery).",
+    "Requests with |p| <= 1e-9 W are outside the theorems; component ids pairwise distinct.",
 ]
 
 META = {
-    "technique": "Coq proofs over the same executable Q model as C01 (phase-by-phase invariants: reservation, deficit covering, greedy top-up, split over inverters; permutation lemmas for the two sorts) + differential correspondence of the real distribute_power on exact rationals vs the model evaluated in Coq + property oracle on the implementation's output with coded known-finding triggers",
-    "level_text": "Machine-checked, closed under the global context: C02_inverter_multi (every set-point of a group with >= 2 inverters is zero or inside that inverter's inclusion bounds and outside its exclusion zone, unconditionally), C02_inverter_partial (all inverters, under side_ok), C02_group_partial (group total inside the aggregated battery inclusion bounds; zero or outside the battery exclusion zone when the split left nothing over), C02_group_refuted (vm_compute witness: the clause is false at full strength), C02_no_headroom (zero on every inverter of a group without SoC headroom, for every pow with pow(0)=0), C02_every_component_has_a_setpoint (result groups are a permutation of the input groups, set-point ids a permutation of the group's inverter ids). Correspondence and oracle as for C01; boundary requests (exactly the advertised exclusion bound, exactly the inclusion bound) are generated explicitly.",
-    "level_note": "Partial for single-inverter groups and group totals (hypothesis side_ok, checked by evaluation on every in-domain case). Known findings: C02-split-leftover (group with >= 2 inverters whose exclusion/inclusion bounds cannot realise the group's power; trigger coded on input + observed set-points), C02-exponent0-full-battery (documented behaviour). The unchanged tree violated C02 (findings F2, F3: fixed by commits fcfd05e, ccb79d8; witnesses in corpus/C02). Trusted base as for C01.",
+    "technique": "Coq proofs over the same executable Q model as C01 (phase-by-phase invariants: reservation, deficit covering, greedy top-up, guarded split over inverters; permutation lemmas for the two sorts) + differential correspondence of the real distribute_power on exact rationals vs the model evaluated in Coq + property oracle on the implementation's output with a coded known-finding trigger",
+    "level_text": "Machine-checked, closed under the global context, no run-time hypotheses: C02_inverter (every set-point is zero or inside its inverter's inclusion bounds and outside (1 - 1e-9) x its exclusion zone), C02_inverter_multi_exact (exact for sets with >= 2 inverters), C02_group (the total of a group's inverters is inside the aggregated battery inclusion bounds and zero or outside (1 - 1e-9) x the battery exclusion zone), C02_no_headroom (zero on every inverter of a group without SoC headroom, for every pow with pow(0)=0), C02_manager_exponent, C02_every_component_has_a_setpoint (result groups are a permutation of the input groups, set-point ids a permutation of the group's inverter ids). Correspondence and oracle as for C01; boundary requests (exactly the advertised exclusion bound, exactly the inclusion bound) are generated explicitly.",
+    "level_note": "Full. Known finding: C02-exponent0-full-battery (documented behaviour, exponent 0). The unchanged tree violated C02 (findings F2, F3, split-leftover: fixed by commits fcfd05e, ccb79d8, 5d1dfb7; witnesses in corpus/C02). Trusted base as for C01.",
 }
